@@ -172,7 +172,7 @@ Proof. reflexivity. Qed.
 (* 3. Expressions                                                                                     *)
 
 Lemma reload_is_name v : is_name (reload_ev v) = is_name v.
-Proof. destruct v; simpl; try reflexivity. destruct (String.eqb cls "ExprAttribute"); reflexivity. Qed.
+Proof. destruct v; simpl; try reflexivity. destruct (String.eqb cls "ExprAttribute"); [reflexivity|]. destruct (String.eqb cls "ExprParameter"); reflexivity. Qed.
 
 (* a decoded, reloaded expression is again the content of an expression field *)
 Lemma as_of_reload : forall e, as_ev (of_ev (reload_ev e)) = Some (reload_ev e).
@@ -188,7 +188,7 @@ Proof.
                                         | Some y => match go r with Some ys => Some (y :: ys) | None => None end
                                         | None => None end end) with (map_opt' as_ev).
     rewrite Hm. reflexivity.
-  - destruct (String.eqb c "ExprAttribute"); reflexivity.
+  - destruct (String.eqb c "ExprAttribute"); [reflexivity|]. destruct (String.eqb c "ExprParameter"); reflexivity.
 Qed.
 
 Lemma ev_res_of_reload e : ev_res (of_ev (reload_ev e)) = Ok (reload_ev e).
@@ -287,10 +287,11 @@ Lemma wf_ev_node c fs :
   (exists spec, class_fields c = Some spec /\ keys_of fs = filter nonparent (keys_of spec)) /\
   ~ In "cls" (keys_of fs) /\
   (String.eqb c "ExprAttribute" = true -> attr_values_ok fs = true) /\
+  (String.eqb c "ExprParameter" = true -> param_kind_ok fs = true) /\
   Forall (fun kv => wf_ev (snd kv) = true) fs.
 Proof.
   intro H. cbn [wf_ev] in H.
-  apply andb_true_iff in H as [H HE]. apply andb_true_iff in H as [H HD].
+  apply andb_true_iff in H as [H HE]. apply andb_true_iff in H as [H HP]. apply andb_true_iff in H as [H HD].
   apply andb_true_iff in H as [H HC]. apply andb_true_iff in H as [HA HB].
   split; [destruct (String.eqb c "ExprName"); [discriminate|reflexivity]|].
   split.
@@ -298,6 +299,7 @@ Proof.
     exists spec. split; [reflexivity|]. apply list_eqb_eq in HB. exact HB. }
   split; [apply mem_str_false; destruct (mem_str "cls" (keys_of fs)); [discriminate|reflexivity]|].
   split; [intro Hc; rewrite Hc in HD; simpl in HD; exact HD|].
+  split; [intro Hc; rewrite Hc in HP; simpl in HP; exact HP|].
   apply Forall_forall. intros [k v] Hin. rewrite forallb_forall in HE. exact (HE _ Hin).
 Qed.
 
@@ -311,6 +313,34 @@ Proof.
   apply String.eqb_eq in Hk. subst. eauto.
 Qed.
 
+Lemma lookup_map_snd {A B} (g : A -> B) k (l : list (string * A)) :
+  lookup k (map (fun kv => (fst kv, g (snd kv))) l) = option_map g (lookup k l).
+Proof. induction l as [|[k' v] r IH]; [reflexivity|]. cbn [map lookup fst snd]. destruct (String.eqb k' k); [reflexivity|exact IH]. Qed.
+
+Lemma distinct_lookup_in {A} (l : list (string * A)) k v : distinct (keys_of l) = true -> In (k, v) l -> lookup k l = Some v.
+Proof.
+  induction l as [|[k' v'] r IH]; [contradiction|]. cbn [keys_of map fst]. intros Hd [E|Hin].
+  - inversion E; subst. cbn [lookup]. rewrite String.eqb_refl. reflexivity.
+  - apply distinct_cons in Hd as [Hn Hd]. cbn [lookup]. destruct (String.eqb_spec k' k) as [->|_]; [|apply IH; assumption].
+    exfalso. apply Hn. unfold keys_of. apply in_map_iff. exists (k, v). auto.
+Qed.
+
+Lemma filter_distinct (p : string -> bool) l : distinct l = true -> distinct (filter p l) = true.
+Proof.
+  induction l as [|x r IH]; [reflexivity|]. intro H. apply distinct_cons in H as [Hn Hd]. cbn [filter].
+  destruct (p x); [|auto]. cbn [distinct]. rewrite (IH Hd), andb_true_r. apply negb_true_iff.
+  destruct (mem_str x (filter p r)) eqn:E; [|reflexivity]. apply mem_str_in, filter_In in E. tauto.
+Qed.
+
+Lemma fix_kind_total fs :
+  (forall k v, In (k, v) fs -> k = "kind" -> exists s, v = VStr s /\ mem_str s parameter_kind_values = true) ->
+  fix_kind fs = Ok (fix_kind_t fs).
+Proof.
+  intro H. unfold fix_kind, fix_kind_t. apply mapM_ok_in. intros [k v] Hin.
+  destruct (String.eqb_spec k "kind") as [->|_]; [|reflexivity].
+  destruct (H _ _ Hin eq_refl) as [s [-> Hs]]. rewrite Hs. reflexivity.
+Qed.
+
 (* Main lemma for expressions: what was encoded decodes to the reloaded expression. *)
 Lemma expr_roundtrip : forall e, wf_ev e = true -> decode (enc_ev e) = Ok (of_ev (reload_ev e)).
 Proof.
@@ -322,7 +352,7 @@ Proof.
     + simpl. rewrite map_map. reflexivity.
     + intros x Hx. rewrite Forall_forall in H. apply H; auto.
   - (* node *)
-    destruct (wf_ev_node _ _ Hwf) as (Hname & (spec & Hspec & Hkeys) & Hcls & Hattr & Hch).
+    destruct (wf_ev_node _ _ Hwf) as (Hname & (spec & Hspec & Hkeys) & Hcls & Hattr & Hparam & Hch).
     cbn [enc_ev]. rewrite decode_obj.
     change (map (fun kv : string * ev => let (k, v) := kv in (k, enc_ev v)) fs) with (map encf fs).
     rewrite mapM_app, mapM_map.
@@ -335,13 +365,18 @@ Proof.
     assert (Hkd : keys_of dfs = keys_of fs).
     { unfold dfs, keys_of. rewrite map_map. reflexivity. }
     (* hook *)
-    unfold hook.
-    assert (Hhas : has_key "cls" (dfs ++ [("cls", PStr c)]) = true).
-    { unfold has_key. rewrite lookup_app_r by (rewrite Hkd; assumption). simpl. reflexivity. }
-    rewrite Hhas. unfold load_expression.
+    unfold hook. rewrite lookup_app_r by (rewrite Hkd; assumption). cbn [lookup String.eqb Ascii.eqb Bool.eqb].
+    unfold load_expression.
     rewrite lookup_app_r by (rewrite Hkd; assumption). cbn [lookup String.eqb Ascii.eqb Bool.eqb].
-    simpl lookup. rewrite remove_key_app_last by (rewrite Hkd; assumption).
+    rewrite remove_key_app_last by (rewrite Hkd; assumption).
     rewrite Hspec.
+    assert (Hlk : forall k, lookup k dfs = option_map (fun v => of_ev (reload_ev v)) (lookup k fs)).
+    { intro k. unfold dfs. exact (lookup_map_snd (fun v => of_ev (reload_ev v)) k fs). }
+    assert (Hearly : (String.eqb c "ExprParameter"
+                      && match lookup "kind" dfs with Some (PStr s0) => negb (mem_str s0 parameter_kind_values) | Some _ => true | None => false end)%bool = false).
+    { destruct (String.eqb c "ExprParameter") eqn:Ep; [|reflexivity]. specialize (Hparam eq_refl). unfold param_kind_ok in Hparam.
+      rewrite Hlk. destruct (lookup "kind" fs) as [[]|]; try discriminate; cbn [option_map of_ev reload_ev]; rewrite Hparam; reflexivity. }
+    rewrite Hearly.
     rewrite spec_check_given by (rewrite Hkd; assumption).
     rewrite (spec_check_required c) by (try rewrite Hkd; assumption).
     cbn [negb].
@@ -355,7 +390,20 @@ Proof.
     { pose proof table_fields_distinct as HT. rewrite forallb_forall in HT. exact (HT _ (class_fields_in _ _ Hspec)). }
     rewrite (fill_fields_id spec (map relf fs) Hdist) by (rewrite Hkr; exact Hkeys).
     cbn [reload_ev]. change (map (fun kv : string * ev => let (k, v) := kv in (k, reload_ev v)) fs) with (map relf fs).
-    destruct (String.eqb c "ExprAttribute") eqn:Eattr; [|reflexivity].
+    destruct (String.eqb c "ExprAttribute") eqn:Eattr.
+    2:{ (* ExprParameter: the kind becomes a ParameterKind again *)
+      destruct (String.eqb c "ExprParameter") eqn:Ep; [|reflexivity]. specialize (Hparam eq_refl). unfold param_kind_ok in Hparam.
+      assert (Hhk : has_key "kind" dfs = true).
+      { unfold has_key. rewrite Hlk. destruct (lookup "kind" fs); [reflexivity|discriminate]. }
+      rewrite Hhk. cbn [andb].
+      rewrite fix_kind_total; [reflexivity|].
+      intros k v Hin ->.
+      assert (Hd' : distinct (keys_of (map relf fs)) = true).
+      { rewrite Hkr, Hkeys. apply filter_distinct. exact Hdist. }
+      pose proof (distinct_lookup_in _ _ _ Hd' Hin) as Hl.
+      assert (Hl2 : lookup "kind" (map relf fs) = option_map reload_ev (lookup "kind" fs)).
+      { clear. induction fs as [|[k' v'] r IH]; [reflexivity|]. cbn [map relf lookup]. destruct (String.eqb k' "kind"); [reflexivity|exact IH]. }
+      rewrite Hl2 in Hl. destruct (lookup "kind" fs) as [[]|]; try discriminate; simpl in Hl; inversion Hl; eauto. }
     (* ExprAttribute: the chain is re-linked *)
     destruct (attr_values_ok_inv _ (Hattr eq_refl)) as (first & r & -> & Hr).
     cbn [map relf reload_ev relink_fields mapM String.eqb Ascii.eqb Bool.eqb].
@@ -392,7 +440,11 @@ Proof.
       rewrite map_map. apply map_ext. intros [k v]. simpl.
       destruct (String.eqb k "values"); [|reflexivity]. destruct v; try reflexivity.
       simpl. rewrite relink_chain_t_enc. reflexivity.
-    + cbn [enc_ev]. f_equal. f_equal. exact Hm.
+    + destruct (String.eqb c "ExprParameter"); cbn [enc_ev]; f_equal; f_equal; [|exact Hm].
+      change (fun kv : string * ev => let (k, v) := kv in (k, enc_ev v)) with encf.
+      rewrite <- Hm. generalize (map relf fs). intro L. unfold fix_kind_t. rewrite map_map. apply map_ext. intros [k v]. cbv beta iota.
+      destruct (String.eqb k "kind"); [|reflexivity]. destruct v; try reflexivity.
+      destruct (mem_str s parameter_kind_values); reflexivity.
 Qed.
 
 Lemma enc_set_scope e : enc_ev (set_scope e) = enc_ev e.
@@ -452,16 +504,9 @@ Proof.
   rewrite (slot_roundtrip _ H). destruct l, e; reflexivity.
 Qed.
 
-Lemma load_doc_value d :
-  (let dd := [("value", PStr (d_value d)); ("lineno", pnum (d_lineno d)); ("endlineno", pnum (d_endlineno d))] in
-   if negb (forallb (fun kv => has_key (fst kv) docstring_init) dd) then Err EType
-   else if negb (forallb (fun pr => negb (snd pr) || has_key (fst pr) dd) docstring_init) then Err EType
-   else if has_key "parent" dd || has_key "parser" dd || has_key "parser_options" dd then Err EUnmodelled
-   else bind (getitem "value" dd) (fun v => bind (as_string v) (fun s =>
-        bind (as_optnum (lookup "lineno" dd)) (fun ln => bind (as_optnum (lookup "endlineno" dd)) (fun eln =>
-        Ok (Some (mkDoc (clean s) ln eln)))))))
-  = Ok (Some (reload_doc d)).
-Proof. destruct d as [v [l|] [e|]]; reflexivity. Qed.
+Lemma load_docstring_lookup (D : list (string * pv)) d :
+  lookup "docstring" D = Some (ddoc d) -> load_docstring D = Ok (Some (reload_doc d)).
+Proof. intro H. unfold load_docstring. rewrite H. destruct d as [v [l|] [e|]]; reflexivity. Qed.
 
 Lemma load_decorator_ok d : load_decorator (ddeco d) = Ok (reload_deco d).
 Proof.
@@ -528,8 +573,7 @@ Proof.
   destruct doc as [d|].
   - cbn [app has_key lookup String.eqb Ascii.eqb Bool.eqb]. rewrite K1, K2, K3, K4, K5.
     unfold load_parameter. cbn [getitem lookup of_option String.eqb Ascii.eqb Bool.eqb bind]. rewrite Hk.
-    cbn [bind]. unfold load_docstring. cbn [lookup String.eqb Ascii.eqb Bool.eqb]. unfold ddoc.
-    rewrite load_doc_value. cbn [bind as_string]. rewrite !ev_res_of_reload. reflexivity.
+    cbn [bind]. rewrite (load_docstring_lookup _ d) by reflexivity. cbn [bind as_string]. rewrite !ev_res_of_reload. reflexivity.
   - cbn [app has_key lookup String.eqb Ascii.eqb Bool.eqb]. rewrite K1, K2, K3, K4, K5.
     unfold load_parameter. cbn [getitem lookup of_option String.eqb Ascii.eqb Bool.eqb bind]. rewrite Hk.
     cbn [bind]. unfold load_docstring. cbn [lookup String.eqb Ascii.eqb Bool.eqb bind as_string].
@@ -574,7 +618,7 @@ Lemma dobj_kind n ln eln doc ls ms x : lookup "kind" (dobj n ln eln doc ls ms x)
 Proof. reflexivity. Qed.
 Lemma dobj_name n ln eln doc ls ms x : lookup "name" (dobj n ln eln doc ls ms x) = Some (PStr n).
 Proof. reflexivity. Qed.
-Lemma dobj_cls n ln eln doc ls ms x : has_key "cls" (dobj n ln eln doc ls ms x) = false.
+Lemma dobj_cls n ln eln doc ls ms x : lookup "cls" (dobj n ln eln doc ls ms x) = None.
 Proof. unfold dobj. obj_cases ln eln doc x. Qed.
 Lemma dobj_lineno n ln eln doc ls ms x : lookup "lineno" (dobj n ln eln doc ls ms x) = option_map PNum ln.
 Proof. unfold dobj. obj_cases ln eln doc x. Qed.
@@ -599,13 +643,16 @@ Qed.
 Lemma load_docstring_dobj n ln eln doc ls ms x :
   load_docstring (dobj n ln eln doc ls ms x) = Ok (option_map reload_doc doc).
 Proof.
-  unfold load_docstring. rewrite dobj_docstring. destruct doc as [d|]; [|reflexivity].
-  simpl option_map. unfold ddoc. apply load_doc_value.
+  destruct doc as [d|]; [apply load_docstring_lookup; rewrite dobj_docstring; reflexivity|].
+  unfold load_docstring. rewrite dobj_docstring. reflexivity.
 Qed.
 
+Lemma load_labels_lookup (D : list (string * pv)) ls :
+  lookup "labels" D = Some (PList (map PStr ls)) -> load_labels D = Ok (canon_labels ls).
+Proof. intro H. unfold load_labels. rewrite H, mapM_as_string. reflexivity. Qed.
 Lemma load_labels_dobj n ln eln doc ls ms x :
   load_labels (dobj n ln eln doc ls ms x) = Ok (canon_labels ls).
-Proof. unfold load_labels. rewrite dobj_labels, mapM_as_string. reflexivity. Qed.
+Proof. apply load_labels_lookup, dobj_labels. Qed.
 
 Lemma tree_name_reload m : tree_name (reload m) = tree_name m.
 Proof. destruct m; reflexivity. Qed.
@@ -615,12 +662,12 @@ Proof. destruct m; reflexivity. Qed.
 Definition members_ok (ms : list (string * tree)) : Prop :=
   Forall (fun km => fst km = tree_name (snd km) /\ plain_name (fst km) = true) ms /\ distinct (keys_of ms) = true.
 
-Lemma load_members_dobj n ln eln doc ls ms x :
+Lemma load_members_lookup (D : list (string * pv)) ms :
+  lookup "members" D = Some (PDict (dmembers ms)) ->
   members_ok ms ->
-  load_members (dobj n ln eln doc ls ms x)
-  = Ok (map (fun km => match km with (_, m) => (tree_name m, attach_tree (reload m)) end) ms).
+  load_members D = Ok (map (fun km => match km with (_, m) => (tree_name m, attach_tree (reload m)) end) ms).
 Proof.
-  intros [Hk Hd]. unfold load_members. rewrite dobj_members. cbn [bind].
+  intros HD [Hk Hd]. unfold load_members. rewrite HD. cbn [bind].
   assert (Hs : map snd (dmembers ms) = map (fun km => PTree (reload (snd km))) ms).
   { unfold dmembers. rewrite map_map. apply map_ext. intros [k m]. reflexivity. }
   rewrite Hs, mapM_map.
@@ -634,6 +681,11 @@ Proof.
     rewrite Forall_forall in Hk. destruct (Hk _ Hin) as [_ P]. exact P. }
   rewrite Hp. cbn [andb]. f_equal. rewrite map_map. apply map_ext. intros [k m]. simpl. rewrite tree_name_reload. reflexivity.
 Qed.
+Lemma load_members_dobj n ln eln doc ls ms x :
+  members_ok ms ->
+  load_members (dobj n ln eln doc ls ms x)
+  = Ok (map (fun km => match km with (_, m) => (tree_name m, attach_tree (reload m)) end) ms).
+Proof. apply load_members_lookup, dobj_members. Qed.
 
 (* ------------------------------------------------------------------------------------------------ *)
 (* 6. Decoding the fields of an encoded object                                                        *)
@@ -669,32 +721,30 @@ Proof.
     apply mapM_app_ok; apply dec_ev_field; assumption.
 Qed.
 
-Lemma has_key_dmembers k ms : has_key k (dmembers ms) = mem_str k (keys_of ms).
+Lemma lookup_dmembers k ms : lookup k (dmembers ms) = None \/ exists t, lookup k (dmembers ms) = Some (PTree t).
 Proof.
-  unfold has_key, dmembers, mem_str, keys_of. induction ms as [|[k' m] r IH]; [reflexivity|].
-  cbn [map lookup existsb fst]. rewrite (String.eqb_sym k k'). destruct (String.eqb k' k); [reflexivity|]. exact IH.
+  unfold dmembers. induction ms as [|[k' m] r IH]; [left; reflexivity|]. cbn [map lookup].
+  destruct (String.eqb k' k); [right; eauto|exact IH].
 Qed.
 
+(* the dictionary of members has objects as values: neither test of the hook fires, whatever the member names *)
 Lemma dec_members ms :
   Forall (fun km => decode (enc_min (snd km)) = Ok (PTree (reload (snd km)))) ms ->
-  mem_str "cls" (keys_of ms) = false -> mem_str "kind" (keys_of ms) = false ->
   decode (JObj (map (fun km => match km with (k, m) => (k, enc_min m) end) ms)) = Ok (PDict (dmembers ms)).
 Proof.
-  intros HF Hc Hk. rewrite decode_obj, mapM_map.
+  intros HF. rewrite decode_obj, mapM_map.
   rewrite (mapM_ok_in _ (fun km => match km with (k, m) => (k, PTree (reload m)) end)).
-  - cbn [bind]. fold (dmembers ms). unfold hook. rewrite has_key_dmembers, Hc.
-    pose proof (has_key_dmembers "kind" ms) as Hh. rewrite Hk in Hh. unfold has_key in Hh.
-    destruct (lookup "kind" (dmembers ms)); [discriminate|reflexivity].
+  - cbn [bind]. fold (dmembers ms). unfold hook.
+    destruct (lookup_dmembers "cls" ms) as [->|[t ->]]; destruct (lookup_dmembers "kind" ms) as [->|[t' ->]]; reflexivity.
   - intros [k m] Hin. rewrite Forall_forall in HF. specialize (HF _ Hin). simpl in HF. simpl. rewrite HF. reflexivity.
 Qed.
 
 Lemma dec_obj_fields n ln eln doc ls ms x :
   wf_extra x = true ->
   Forall (fun km => decode (enc_min (snd km)) = Ok (PTree (reload (snd km)))) ms ->
-  mem_str "cls" (keys_of ms) = false -> mem_str "kind" (keys_of ms) = false ->
   decode (enc_min (TObj n ln eln doc ls ms x)) = hook (dobj n ln eln doc ls ms x).
 Proof.
-  intros Hx HF Hc Hk. cbn [enc_min]. rewrite decode_obj.
+  intros Hx HF. cbn [enc_min]. rewrite decode_obj.
   assert (Hm : mapM dec_kv ([("kind", JStr (kind_of x)); ("name", JStr n)] ++ opt_field "lineno" ln ++ opt_field "endlineno" eln
                             ++ enc_docfield doc
                             ++ [("labels", JArr (map JStr ls));
@@ -703,28 +753,12 @@ Proof.
   { unfold dobj. apply mapM_app_ok; [reflexivity|].
     apply mapM_app_ok; [apply dec_opt_field|]. apply mapM_app_ok; [apply dec_opt_field|].
     apply mapM_app_ok; [apply dec_docfield|]. apply mapM_app_ok; [|apply dec_extra; assumption].
-    rewrite !mapM_cons, mapM_nil. cbn [dec_kv]. rewrite dec_labels. rewrite (dec_members ms HF Hc Hk). reflexivity. }
+    rewrite !mapM_cons, mapM_nil. cbn [dec_kv]. rewrite dec_labels. rewrite (dec_members ms HF). reflexivity. }
   rewrite Hm. reflexivity.
 Qed.
 
 (* ------------------------------------------------------------------------------------------------ *)
-(* 7. What `decodable` says about one node                                                            *)
-
-Lemma negb_orb_existsb {A} (a : bool) (f : A -> bool) l :
-  negb (a || existsb f l) = true -> a = false /\ forall x, In x l -> f x = false.
-Proof.
-  intro H. apply negb_true_iff, orb_false_iff in H as [Ha He]. split; [assumption|].
-  intros x Hx. destruct (f x) eqn:E; [|reflexivity].
-  assert (existsb f l = true) by (apply existsb_exists; eauto). congruence.
-Qed.
-
-Lemma decodable_alias n tp ln eln :
-  decodable (TAlias n tp ln eln) = true -> (exists z, ln = Some z /\ Z.eqb z 0 = false) /\ nonzero eln = true.
-Proof.
-  unfold decodable. simpl. intro H. repeat (apply andb_true_iff in H as [H ?]).
-  split; [|assumption]. destruct ln as [z|]; [|discriminate]. exists z. split; [reflexivity|].
-  destruct (Z.eqb z 0); [discriminate|reflexivity].
-Qed.
+(* 7. What `rep` says about one node                                                                   *)
 
 Record node_facts (n : string) (ln eln : option Z) (doc : option docstring) (ls : list string)
        (ms : list (string * tree)) (x : extra) : Prop := {
@@ -733,25 +767,15 @@ Record node_facts (n : string) (ln eln : option Z) (doc : option docstring) (ls 
   nf_module : is_module x = true -> ln = None /\ eln = None;
   nf_leaf : has_members x = false -> ms = [];
   nf_members : members_ok ms;
-  nf_lineno : is_module x = false -> exists z, ln = Some z;
-  nf_filepath : forall fp, x = XModule fp -> exists s, fp = FPStr s;
-  nf_cls : mem_str "cls" (keys_of ms) = false;
-  nf_kind : mem_str "kind" (keys_of ms) = false;
-  nf_children : Forall (fun km => decodable (snd km) = true) ms }.
+  nf_children : Forall (fun km => rep (snd km) = true) ms }.
 
-Lemma decodable_obj n ln eln doc ls ms x :
-  decodable (TObj n ln eln doc ls ms x) = true -> node_facts n ln eln doc ls ms x.
+Lemma rep_obj n ln eln doc ls ms x :
+  rep (TObj n ln eln doc ls ms x) = true -> node_facts n ln eln doc ls ms x.
 Proof.
-  unfold decodable. intro H.
-  apply andb_true_iff in H as [H Hkey]. apply andb_true_iff in H as [H Hfp]. apply andb_true_iff in H as [Hrep Hln].
-  cbn [rep] in Hrep.
+  intro Hrep. cbn [rep] in Hrep.
   apply andb_true_iff in Hrep as [Hrep Hdist]. apply andb_true_iff in Hrep as [Hrep Hms].
   apply andb_true_iff in Hrep as [Hrep Hleaf]. apply andb_true_iff in Hrep as [Hrep Hmod].
   apply andb_true_iff in Hrep as [Hlab Hx].
-  cbn [gap_lineno] in Hln. apply negb_orb_existsb in Hln as [Hln1 Hln2].
-  cbn [gap_filepath] in Hfp. apply negb_orb_existsb in Hfp as [Hfp1 Hfp2].
-  cbn [gap_memberkey] in Hkey. apply negb_orb_existsb in Hkey as [Hkey1 Hkey2].
-  apply orb_false_iff in Hkey1 as [Hc Hk].
   rewrite forallb_forall in Hms.
   constructor; try assumption.
   - apply list_eqb_eq. assumption.
@@ -759,12 +783,8 @@ Proof.
   - intro Hh. destruct ms; [reflexivity|]. rewrite Hh in Hleaf. discriminate.
   - split; [|assumption]. apply Forall_forall. intros [k m] Hin. specialize (Hms _ Hin). cbv beta iota in Hms.
     apply andb_true_iff in Hms as [Hms _]. apply andb_true_iff in Hms as [E P]. apply String.eqb_eq in E. cbn [fst snd]. auto.
-  - intro Hm. rewrite Hm in Hln1. simpl in Hln1. destruct ln as [z|]; [eauto|discriminate].
-  - intros fp ->. destruct fp; try discriminate. eauto.
-  - apply Forall_forall. intros [k m] Hin. cbn [snd]. unfold decodable.
-    specialize (Hms _ Hin). cbv beta iota in Hms. apply andb_true_iff in Hms as [_ Hr].
-    specialize (Hln2 _ Hin). specialize (Hfp2 _ Hin). specialize (Hkey2 _ Hin). cbv beta iota in Hln2, Hfp2, Hkey2.
-    rewrite Hr, Hln2, Hfp2, Hkey2. reflexivity.
+  - apply Forall_forall. intros [k m] Hin. cbn [snd].
+    specialize (Hms _ Hin). cbv beta iota in Hms. apply andb_true_iff in Hms as [_ Hr]. exact Hr.
 Qed.
 
 (* ------------------------------------------------------------------------------------------------ *)
@@ -772,50 +792,65 @@ Qed.
 
 Global Opaque dobj.
 
-Lemma hook_obj n ln eln doc ls ms x :
-  node_facts n ln eln doc ls ms x -> hook (dobj n ln eln doc ls ms x) = Ok (PTree (reload (TObj n ln eln doc ls ms x))).
+Lemma as_optnum_pnum o : as_optnum (option_map PNum o) = Ok o.
+Proof. destruct o; reflexivity. Qed.
+
+Definition slot_key (k : string) : bool := mem_str k ["bases"; "decorators"; "parameters"; "returns"; "value"; "annotation"].
+
+(* the hook on any dict that answers the loaders' lookups like the dict of an encoded object *)
+Lemma hook_generic (D : list (string * pv)) n ln eln doc ls ms x :
+  lookup "cls" D = None -> lookup "kind" D = Some (PStr (kind_of x)) -> lookup "name" D = Some (PStr n) ->
+  lookup "lineno" D = option_map PNum ln -> lookup "endlineno" D = option_map PNum eln ->
+  load_docstring D = Ok (option_map reload_doc doc) ->
+  lookup "labels" D = Some (PList (map PStr ls)) -> lookup "members" D = Some (PDict (dmembers ms)) ->
+  (is_module x = true -> lookup "filepath" D = lookup "filepath" (dextra x)) ->
+  (forall k, slot_key k = true -> lookup k D = lookup k (dextra x)) ->
+  node_facts n ln eln doc ls ms x -> hook D = Ok (PTree (reload (TObj n ln eln doc ls ms x))).
 Proof.
-  intros [Hlab Hx Hmod Hleaf Hms Hln Hfp _ _ _].
-  unfold hook. rewrite dobj_cls, dobj_kind.
+  intros Hcls Hkind Hname Hln Heln Hdoc Hlabels Hmembers Hfpk Hex [Hlab Hx Hmod Hleaf Hms _].
+  unfold hook. rewrite Hcls, Hkind.
   destruct x as [fp|bases decos|decos params ret|v a].
   - (* module *)
-    destruct (Hmod eq_refl) as [-> ->]. destruct (Hfp fp eq_refl) as [s ->].
+    destruct (Hmod eq_refl) as [-> ->].
     cbn [kind_of]. change (String.eqb kind_module kind_module) with true. cbn iota.
-    unfold load_module, getitem. rewrite dobj_name, (dobj_extra "filepath") by reflexivity.
-    cbn [dextra lookup dfpath of_option bind String.eqb Ascii.eqb Bool.eqb].
-    rewrite load_docstring_dobj. cbn [bind as_string]. rewrite (load_members_dobj _ _ _ _ _ _ _ Hms). cbn [bind].
-    rewrite load_labels_dobj. reflexivity.
+    unfold load_module, getitem. rewrite Hname, (Hfpk eq_refl).
+    cbn [dextra lookup of_option bind String.eqb Ascii.eqb Bool.eqb].
+    assert (Hfp : match dfpath fp with
+                  | PStr s => Ok (FPStr s) | PNull => Ok FPNone
+                  | PList l => bind (mapM as_string l) (fun ss => Ok (FPList ss))
+                  | PNum _ => Err EType | PBool _ => Err EType | _ => Err EUnmodelled end = Ok fp).
+    { destruct fp as [|s|l]; cbn [dfpath]; [reflexivity|reflexivity|]. rewrite mapM_as_string. reflexivity. }
+    rewrite Hfp. cbn [bind].
+    rewrite Hdoc. cbn [bind as_string]. rewrite (load_members_lookup _ _ Hmembers Hms). cbn [bind].
+    rewrite (load_labels_lookup _ _ Hlabels). reflexivity.
   - (* class *)
-    destruct (Hln eq_refl) as [z ->].
     cbn [kind_of]. change (String.eqb kind_class kind_module) with false. change (String.eqb kind_class kind_class) with true. cbn iota.
-    unfold load_class, getitem, load_decorators. rewrite dobj_name, dobj_lineno, dobj_endlineno.
-    rewrite !dobj_extra by reflexivity.
+    unfold load_class, getitem, load_decorators. rewrite Hname, Hln, Heln.
+    rewrite !Hex by reflexivity.
     cbn [dextra lookup of_option bind option_map String.eqb Ascii.eqb Bool.eqb].
-    rewrite load_docstring_dobj. cbn [bind]. rewrite load_decorator_list. cbn [bind as_string as_optnum].
-    rewrite as_ev_list_ok. cbn [bind].
-    assert (He : as_optnum (option_map PNum eln) = Ok eln) by (destruct eln; reflexivity). rewrite He. cbn [bind].
-    rewrite (load_members_dobj _ _ _ _ _ _ _ Hms). cbn [bind]. rewrite load_labels_dobj. reflexivity.
+    rewrite Hdoc. cbn [bind]. rewrite load_decorator_list. cbn [bind as_string].
+    rewrite !as_optnum_pnum. cbn [bind]. rewrite as_ev_list_ok. cbn [bind].
+    rewrite (load_members_lookup _ _ Hmembers Hms). cbn [bind]. rewrite (load_labels_lookup _ _ Hlabels). reflexivity.
   - (* function *)
-    destruct (Hln eq_refl) as [z ->]. rewrite (Hleaf eq_refl).
+    rewrite (Hleaf eq_refl).
     cbn [kind_of]. change (String.eqb kind_function kind_module) with false. change (String.eqb kind_function kind_class) with false.
     change (String.eqb kind_function kind_function) with true. cbn iota.
-    unfold load_function, getitem, load_decorators. rewrite dobj_name, dobj_lineno, dobj_endlineno.
-    rewrite !dobj_extra by reflexivity.
+    unfold load_function, getitem, load_decorators. rewrite Hname, Hln, Heln.
+    rewrite !Hex by reflexivity.
     cbn [dextra lookup of_option bind option_map String.eqb Ascii.eqb Bool.eqb].
-    rewrite load_decorator_list. cbn [bind]. rewrite load_docstring_dobj. cbn [bind as_string].
+    rewrite load_decorator_list. cbn [bind]. rewrite Hdoc. cbn [bind as_string].
     rewrite mapM_map. rewrite (mapM_ok_in _ reload_param) by reflexivity. cbn [bind].
-    rewrite ev_res_of_reload. cbn [bind as_optnum].
-    assert (He : as_optnum (option_map PNum eln) = Ok eln) by (destruct eln; reflexivity). rewrite He. cbn [bind].
-    rewrite load_labels_dobj. reflexivity.
+    rewrite ev_res_of_reload. cbn [bind]. rewrite !as_optnum_pnum. cbn [bind].
+    rewrite (load_labels_lookup _ _ Hlabels). reflexivity.
   - (* attribute *)
-    destruct (Hln eq_refl) as [z ->]. rewrite (Hleaf eq_refl).
+    rewrite (Hleaf eq_refl).
     cbn [kind_of]. change (String.eqb kind_attribute kind_module) with false. change (String.eqb kind_attribute kind_class) with false.
     change (String.eqb kind_attribute kind_function) with false. change (String.eqb kind_attribute kind_attribute) with true. cbn iota.
-    unfold load_attribute, getitem, get_ev. rewrite dobj_name, dobj_lineno, dobj_endlineno.
-    rewrite !dobj_extra by reflexivity.
-    cbn [of_option bind option_map]. rewrite load_docstring_dobj. cbn [bind as_string as_optnum].
-    assert (He : as_optnum (option_map PNum eln) = Ok eln) by (destruct eln; reflexivity). rewrite He. cbn [bind].
-    rewrite load_labels_dobj.
+    unfold load_attribute, getitem, get_ev. rewrite Hname, Hln, Heln.
+    rewrite !Hex by reflexivity.
+    cbn [of_option bind option_map]. rewrite Hdoc. cbn [bind as_string].
+    rewrite !as_optnum_pnum. cbn [bind].
+    rewrite (load_labels_lookup _ _ Hlabels).
     assert (Hv : forall e, match lookup "value" (dextra (XAttribute e a)) with None => Ok VNone | Some v0 => ev_res v0 end = Ok (reload_ev e)).
     { intro e. unfold dextra, pev. destruct e; cbn [is_vnone app lookup String.eqb Ascii.eqb Bool.eqb]; try (rewrite ev_res_of_reload; reflexivity).
       destruct (is_vnone a); reflexivity. }
@@ -825,33 +860,45 @@ Proof.
     rewrite Hv, Ha. reflexivity.
 Qed.
 
+Lemma hook_obj n ln eln doc ls ms x :
+  node_facts n ln eln doc ls ms x -> hook (dobj n ln eln doc ls ms x) = Ok (PTree (reload (TObj n ln eln doc ls ms x))).
+Proof.
+  intro NF. apply hook_generic; try assumption.
+  - apply dobj_cls. - apply dobj_kind. - apply dobj_name. - apply dobj_lineno. - apply dobj_endlineno.
+  - apply load_docstring_dobj. - apply dobj_labels. - apply dobj_members.
+  - intros _. apply dobj_extra. reflexivity.
+  - intros k Hk. apply dobj_extra. unfold slot_key in Hk. apply mem_str_in in Hk. simpl in Hk. unfold extra_key. apply mem_str_in. simpl. tauto.
+Qed.
+
 (* ------------------------------------------------------------------------------------------------ *)
 (* 9. Main theorems, minimal mode                                                                     *)
 
+Lemma zero_to_none_id o : nonzero o = true -> zero_to_none o = o.
+Proof. destruct o as [z|]; [|reflexivity]. simpl. destruct (Z.eqb z 0); [discriminate|reflexivity]. Qed.
+
 Lemma decode_alias n tp ln eln :
-  decodable (TAlias n tp ln eln) = true ->
+  rep (TAlias n tp ln eln) = true ->
   decode (enc_min (TAlias n tp ln eln)) = Ok (PTree (reload (TAlias n tp ln eln))).
 Proof.
-  intro H. destruct (decodable_alias _ _ _ _ H) as [[z [-> Hz]] He].
-  cbn [enc_min truthy_field reload]. rewrite Hz.
-  destruct eln as [e|]; cbn [truthy_field zero_to_none nonzero] in *.
-  - destruct (Z.eqb e 0); [discriminate|]. reflexivity.
-  - reflexivity.
+  cbn [rep]. intro H. apply andb_true_iff in H as [Hl He].
+  cbn [enc_min truthy_field reload].
+  destruct ln as [l|]; destruct eln as [e|]; cbn [truthy_field zero_to_none nonzero] in *;
+    repeat match goal with |- context [Z.eqb ?z 0] => destruct (Z.eqb z 0); [discriminate|] end; reflexivity.
 Qed.
 
-Theorem decode_enc_min : forall t, decodable t = true -> decode (enc_min t) = Ok (PTree (reload t)).
+Theorem decode_enc_min : forall t, rep t = true -> decode (enc_min t) = Ok (PTree (reload t)).
 Proof.
   induction t using tree_ind'; intro Hd.
   - apply decode_alias. assumption.
-  - pose proof (decodable_obj _ _ _ _ _ _ _ Hd) as NF.
+  - pose proof (rep_obj _ _ _ _ _ _ _ Hd) as NF.
     assert (HF : Forall (fun km => decode (enc_min (snd km)) = Ok (PTree (reload (snd km)))) ms).
     { apply Forall_forall. intros km Hin. rewrite Forall_forall in H.
       apply H; [assumption|]. pose proof (nf_children _ _ _ _ _ _ _ NF) as Hc. rewrite Forall_forall in Hc. auto. }
-    rewrite dec_obj_fields; [apply hook_obj; assumption|apply NF|assumption|apply NF|apply NF].
+    rewrite dec_obj_fields; [apply hook_obj; assumption|apply NF|assumption].
 Qed.
 
 Theorem from_json_enc_min : forall n ln eln doc ls ms fp,
-  decodable (TObj n ln eln doc ls ms (XModule fp)) = true ->
+  rep (TObj n ln eln doc ls ms (XModule fp)) = true ->
   from_json (enc_min (TObj n ln eln doc ls ms (XModule fp))) = Ok (reload (TObj n ln eln doc ls ms (XModule fp))).
 Proof. intros. unfold from_json. rewrite decode_enc_min by assumption. reflexivity. Qed.
 
@@ -917,8 +964,8 @@ Proof. destruct t; [|reflexivity]. cbn [attach_tree enc_min]. rewrite enc_attach
 Theorem reencode_identical : forall t, rep t = true -> gap_doc t = false -> enc_min (reload t) = enc_min t.
 Proof.
   induction t using tree_ind'; intros Hrep Hdoc.
-  - cbn [rep] in Hrep. cbn [reload enc_min]. destruct eln as [e|]; [|reflexivity].
-    cbn [nonzero] in Hrep. cbn [zero_to_none]. destruct (Z.eqb e 0); [discriminate|reflexivity].
+  - cbn [rep] in Hrep. apply andb_true_iff in Hrep as [Hl He]. cbn [reload].
+    rewrite !zero_to_none_id by assumption. reflexivity.
   - cbn [rep] in Hrep.
     apply andb_true_iff in Hrep as [Hrep Hdist]. apply andb_true_iff in Hrep as [Hrep Hms].
     apply andb_true_iff in Hrep as [Hrep Hleaf]. apply andb_true_iff in Hrep as [Hrep Hmod].
@@ -952,9 +999,7 @@ Theorem roundtrip_min : forall t, wf t = true ->
   exists t', decode (enc_min t) = Ok (PTree t') /\ enc_min t' = enc_min t.
 Proof.
   intros t H. unfold wf in H. apply andb_true_iff in H as [Hd Hg]. apply negb_true_iff in Hg.
-  exists (reload t). split; [apply decode_enc_min; assumption|].
-  apply reencode_identical; [|assumption].
-  unfold decodable in Hd. repeat (apply andb_true_iff in Hd as [Hd ?]). assumption.
+  exists (reload t). split; [apply decode_enc_min; assumption|]. apply reencode_identical; assumption.
 Qed.
 
 (* ------------------------------------------------------------------------------------------------ *)
@@ -1005,34 +1050,27 @@ Proof. vm_compute. reflexivity. Qed.
 Definition w_module (ms : list (string * tree)) (fp : fpath) : tree := TObj "w" None None None [] ms (XModule fp).
 Definition w_attr (n : string) (ln : option Z) : tree := TObj n ln ln None [] [] (XAttribute (VStr "1") VNone).
 
-Lemma refuted_lineno :
-  exists t, rep t = true /\ gap_lineno t = true /\ decode (enc_min t) = Err (EKey "lineno").
-Proof. exists (w_module [("a", w_attr "a" None)] (FPStr "/x/w.py")). vm_compute. repeat split; reflexivity. Qed.
+(* the repaired defects: their witnesses now round-trip to themselves *)
+Example fixed_lineno :
+  let t := w_module [("a", w_attr "a" None); ("al", TAlias "al" "os.al" None None)] (FPStr "/x/w.py") in
+  rep t = true /\ decode (enc_min t) = Ok (PTree t).
+Proof. vm_compute. split; reflexivity. Qed.
 
-Lemma refuted_lineno_alias :
-  exists t, rep t = true /\ gap_lineno t = true /\ decode (enc_min t) = Err (EKey "lineno").
-Proof. exists (w_module [("a", TAlias "a" "os.a" None None)] (FPStr "/x/w.py")). vm_compute. repeat split; reflexivity. Qed.
+Example fixed_filepath :
+  (let t := w_module [] (FPList ["/x/w"; "/y/w"]) in rep t = true /\ decode (enc_min t) = Ok (PTree t)) /\
+  (let t := w_module [] FPNone in rep t = true /\ decode (enc_min t) = Ok (PTree t)).
+Proof. vm_compute. repeat split; reflexivity. Qed.
 
-Lemma refuted_filepath :
-  (exists t, rep t = true /\ gap_filepath t = true /\ decode (enc_min t) = Err EType) /\
-  (exists t, rep t = true /\ gap_filepath t = true /\ decode (enc_min t) = Err EType).
-Proof.
-  split; [exists (w_module [] (FPList ["/x/w"]))|exists (w_module [] FPNone)]; vm_compute; repeat split; reflexivity.
-Qed.
-
-Lemma refuted_memberkey_kind :
-  exists t, rep t = true /\ gap_memberkey t = true /\ decode (enc_min t) = Err (EKey "name").
-Proof. exists (w_module [("kind", w_attr "kind" (Some 1%Z))] (FPStr "/x/w.py")). vm_compute. repeat split; reflexivity. Qed.
-
-Lemma refuted_memberkey_cls :
-  exists t, rep t = true /\ gap_memberkey t = true /\ decode (enc_min t) = Err EType.
-Proof. exists (w_module [("cls", w_attr "cls" (Some 1%Z))] (FPStr "/x/w.py")). vm_compute. repeat split; reflexivity. Qed.
+Example fixed_memberkey :
+  let t := w_module [("kind", w_attr "kind" (Some 1%Z)); ("cls", w_attr "cls" (Some 2%Z)); ("name", w_attr "name" (Some 3%Z))] (FPStr "/x/w.py") in
+  rep t = true /\ decode (enc_min t) = Ok (PTree t).
+Proof. vm_compute. split; reflexivity. Qed.
 
 Definition w_docvalue : string := append "    Deep first line." (String nl "Rest.").
 Definition w_doctree : tree := TObj "w" None None (Some (mkDoc w_docvalue (Some 1%Z) (Some 4%Z))) [] [] (XModule (FPStr "/x/w.py")).
 
 Lemma refuted_docstring :
-  exists t t', decodable t = true /\ gap_doc t = true /\ decode (enc_min t) = Ok (PTree t') /\ enc_min t' <> enc_min t.
+  exists t t', rep t = true /\ gap_doc t = true /\ decode (enc_min t) = Ok (PTree t') /\ enc_min t' <> enc_min t.
 Proof.
   exists w_doctree, (reload w_doctree). split; [vm_compute; reflexivity|]. split; [vm_compute; reflexivity|].
   split; [apply decode_enc_min; vm_compute; reflexivity|]. vm_compute. intro H. discriminate H.
@@ -1042,13 +1080,9 @@ Definition w_lambda : ev :=
   VNode "ExprLambda" [("body", VStr "0");
                       ("parameters", VList [VNode "ExprParameter" [("annotation", VNone); ("default", VNone);
                                                                    ("kind", VEnum "variadic positional"); ("name", VStr "a")]])].
-Lemma refuted_enum :
-  wf_slot w_lambda = true /\ has_enum w_lambda = true /\
-  exists e', decode (enc_ev w_lambda) = Ok (PExpr e') /\ e' <> w_lambda /\ slot_restored true w_lambda = false.
-Proof.
-  split; [vm_compute; reflexivity|]. split; [vm_compute; reflexivity|].
-  exists (reload_ev w_lambda). split; [vm_compute; reflexivity|]. split; [vm_compute; intro H; discriminate H|vm_compute; reflexivity].
-Qed.
+Example fixed_enum :
+  wf_slot w_lambda = true /\ decode (enc_ev w_lambda) = Ok (PExpr w_lambda) /\ slot_restored true w_lambda = true.
+Proof. vm_compute. repeat split; reflexivity. Qed.
 
 (* names: Optional[List[Foo]] in an attached slot; a base class; a dotted default; a name attached to a method *)
 Lemma refuted_links_depth :
@@ -1099,7 +1133,11 @@ Proof.
       rewrite map_map. apply map_ext. intros [k v]. simpl.
       destruct (String.eqb k "values"); [|reflexivity]. destruct v; try reflexivity.
       simpl. rewrite relink_chain_t_erase. reflexivity.
-    + cbn [erase_ev]. f_equal. exact Hm.
+    + destruct (String.eqb c "ExprParameter"); cbn [erase_ev]; f_equal; [|exact Hm].
+      change (fun kv : string * ev => let (k, v) := kv in (k, erase_ev v)) with eraf.
+      rewrite <- Hm. generalize (map relf fs). intro L. unfold fix_kind_t. rewrite map_map. apply map_ext. intros [k v]. cbv beta iota.
+      destruct (String.eqb k "kind"); [|reflexivity]. destruct v; try reflexivity.
+      destruct (mem_str s parameter_kind_values); reflexivity.
 Qed.
 
 Lemma erase_set_scope e : erase_ev (set_scope e) = erase_ev e.
@@ -1178,8 +1216,8 @@ Proof. destruct t; [|reflexivity]. cbn [attach_tree erase]. rewrite erase_attach
 Theorem equiv_fields : forall t, rep t = true -> gap_doc t = false -> erase (reload t) = erase t.
 Proof.
   induction t using tree_ind'; intros Hrep Hdoc.
-  - cbn [rep] in Hrep. cbn [reload erase]. destruct eln as [e|]; [|reflexivity].
-    cbn [nonzero] in Hrep. cbn [zero_to_none]. destruct (Z.eqb e 0); [discriminate|reflexivity].
+  - cbn [rep] in Hrep. apply andb_true_iff in Hrep as [Hl He]. cbn [reload].
+    rewrite !zero_to_none_id by assumption. reflexivity.
   - cbn [rep] in Hrep.
     apply andb_true_iff in Hrep as [Hrep Hdist]. apply andb_true_iff in Hrep as [Hrep Hms].
     apply andb_true_iff in Hrep as [Hrep Hleaf]. apply andb_true_iff in Hrep as [Hrep Hmod].
@@ -1253,8 +1291,8 @@ Lemma attach_reload_identity : forall t,
   rep t = true -> gap_doc t = false -> gap_expr t = false -> attach_tree (reload t) = t.
 Proof.
   induction t using tree_ind'; intros Hrep Hdoc Hex.
-  - cbn [rep] in Hrep. cbn [reload attach_tree]. destruct eln as [e|]; [|reflexivity].
-    cbn [nonzero] in Hrep. cbn [zero_to_none]. destruct (Z.eqb e 0); [discriminate|reflexivity].
+  - cbn [rep] in Hrep. apply andb_true_iff in Hrep as [Hl He]. cbn [reload attach_tree].
+    rewrite !zero_to_none_id by assumption. reflexivity.
   - cbn [rep] in Hrep.
     apply andb_true_iff in Hrep as [Hrep Hdist]. apply andb_true_iff in Hrep as [Hrep Hms].
     apply andb_true_iff in Hrep as [Hrep Hleaf]. apply andb_true_iff in Hrep as [Hrep Hmod].
@@ -1292,122 +1330,11 @@ Proof.
 Qed.
 
 (* ------------------------------------------------------------------------------------------------ *)
-(* 14. Full mode: a document with a docstring does not decode                                         *)
+(* 14. Full mode witnesses *)
 
-Lemma dec_kv_err k v e : decode v = Err e -> dec_kv (k, v) = Err e.
-Proof. intro H. simpl. rewrite H. reflexivity. Qed.
-
-Lemma decode_obj_field_err kvs k v e :
-  In (k, v) kvs -> decode v = Err e -> exists e', decode (JObj kvs) = Err e'.
-Proof.
-  intros Hin Hv. rewrite decode_obj.
-  destruct (mapM_err_in dec_kv kvs (k, v) e Hin (dec_kv_err k v e Hv)) as [e' ->]. simpl. eauto.
-Qed.
-
-Lemma decode_arr_elem_err l v e : In v l -> decode v = Err e -> exists e', decode (JArr l) = Err e'.
-Proof.
-  intros Hin Hv. rewrite decode_arr. destruct (mapM_err_in decode l v e Hin Hv) as [e' ->]. simpl. eauto.
-Qed.
-
-(* a parsed section {"kind": ..., "value": ...} is taken for an object or a parameter: KeyError 'name' *)
-Lemma section_fails s : exists e, decode (enc_section s) = Err e.
-Proof.
-  destruct s as [k title v]. unfold enc_section. cbn [s_kind s_title s_value].
-  destruct (decode v) as [v'|e] eqn:Ev.
-  2:{ eapply decode_obj_field_err; [|exact Ev]. right. left. reflexivity. }
-  rewrite decode_obj.
-  set (tl := match title with Some t => if is_empty t then [] else [("title", JStr t)] | None => [] end).
-  set (tl' := match title with Some t => if is_empty t then [] else [("title", PStr t)] | None => [] end).
-  assert (Hm : mapM dec_kv ([("kind", JStr k); ("value", v)] ++ tl) = Ok ([("kind", PStr k); ("value", v')] ++ tl')).
-  { apply mapM_app_ok.
-    - rewrite !mapM_cons, mapM_nil. cbn [dec_kv]. rewrite Ev. reflexivity.
-    - unfold tl, tl'. destruct title as [t|]; [destruct (is_empty t)|]; reflexivity. }
-  rewrite Hm. cbn [bind].
-  assert (Hcls : has_key "cls" ([("kind", PStr k); ("value", v')] ++ tl') = false).
-  { unfold tl'. destruct title as [t|]; [destruct (is_empty t)|]; reflexivity. }
-  assert (Hname : forall d, d = [("kind", PStr k); ("value", v')] ++ tl' -> getitem "name" d = Err (EKey "name")).
-  { intros d ->. unfold tl'. destruct title as [t|]; [destruct (is_empty t)|]; reflexivity. }
-  unfold hook. rewrite Hcls. cbn [app lookup String.eqb Ascii.eqb Bool.eqb].
-  pose proof (Hname _ eq_refl) as Hn. cbn [app] in Hn.
-  destruct (String.eqb k kind_module); [unfold load_module; rewrite Hn; simpl; eauto|].
-  destruct (String.eqb k kind_class); [unfold load_class; rewrite Hn; simpl; eauto|].
-  destruct (String.eqb k kind_function); [unfold load_function; rewrite Hn; simpl; eauto|].
-  destruct (String.eqb k kind_attribute); [unfold load_attribute; rewrite Hn; simpl; eauto|].
-  destruct (String.eqb k kind_alias); [unfold load_alias; rewrite Hn; simpl; eauto|].
-  unfold load_parameter; rewrite Hn; simpl; eauto.
-Qed.
-
-Lemma doc_full_fails secs d : secs <> [] -> exists e, decode (enc_doc_full secs d) = Err e.
-Proof.
-  intro Hne. destruct secs as [|s r]; [contradiction|].
-  destruct (section_fails s) as [e He].
-  destruct (decode_arr_elem_err (map enc_section (s :: r)) (enc_section s) e (or_introl eq_refl) He) as [e' He'].
-  unfold enc_doc_full. eapply decode_obj_field_err; [|exact He']. right. right. right. left. reflexivity.
-Qed.
-
-Lemma mapM_ok_inv {A B} (f : A -> res B) l l' x :
-  mapM f l = Ok l' -> In x l -> exists y, f x = Ok y /\ In y l'.
-Proof.
-  revert l'. induction l as [|a r IH]; intros l' H Hin; [contradiction|].
-  rewrite mapM_cons in H. destruct (f a) as [b|] eqn:Ea; [|discriminate]. simpl in H.
-  destruct (mapM f r) as [bs|] eqn:Er; [|discriminate]. simpl in H. inversion H; subst.
-  destruct Hin as [->|Hin]; [exists b; split; [assumption|left; reflexivity]|].
-  destruct (IH _ eq_refl Hin) as [y [Hy Hi]]. exists y. split; [assumption|right; assumption].
-Qed.
-
-Lemma in_set_key k v (l : list (string * json)) k' v' :
-  In (k', v') l -> k' <> k -> In (k', v') (set_key k v l).
-Proof.
-  induction l as [|[a b] r IH]; [contradiction|]. intros [E|Hin] Hne; simpl.
-  - inversion E; subst. destruct (String.eqb_spec k' k); [contradiction|]. left. reflexivity.
-  - destruct (String.eqb a k); right; [assumption|auto].
-Qed.
-
-Theorem full_docstring_not_decodable : forall F,
-  (forall path, f_parsed (F path) <> []) ->
-  forall t prefix j, has_obj_doc t = true -> enc_full F prefix t = Ok j -> exists e, decode j = Err e.
-Proof.
-  intros F HF. induction t using tree_ind'; intros prefix j Hdoc Henc; [discriminate|].
-  cbn [enc_full] in Henc.
-  destruct (full_keys F (dotted prefix n)) as [fk|] eqn:Efk; [|discriminate]. cbn [bind] in Henc.
-  match type of Henc with context [mapM ?f ms] => destruct (mapM f ms) as [ms'|] eqn:Ems; [|discriminate] end.
-  cbn [bind] in Henc. inversion Henc as [Hj]. clear Henc. subst j.
-  set (base := [("kind", JStr (kind_of x)); ("name", JStr n)] ++ fk ++ opt_field "lineno" ln ++ opt_field "endlineno" eln
-               ++ match doc with Some d => [("docstring", enc_doc_full (f_parsed (F (dotted prefix n))) d)] | None => [] end
-               ++ [("labels", JArr (map JStr ls)); ("members", JObj ms')]) in *.
-  assert (Hfield : forall k v, In (k, v) base -> k <> "filepath" ->
-                   In (k, v) (match x with XModule fp => set_key "filepath" (enc_fpath fp) base | _ => base ++ enc_extra_full (F (dotted prefix n)) x end)).
-  { intros k v Hin Hne. destruct x; try (apply in_or_app; left; assumption). apply in_set_key; assumption. }
-  cbn [has_obj_doc] in Hdoc. apply orb_true_iff in Hdoc as [Hd|Hm].
-  - destruct doc as [d|]; [|discriminate].
-    destruct (doc_full_fails _ d (HF (dotted prefix n))) as [e He].
-    eapply decode_obj_field_err; [|exact He]. apply Hfield.
-    + unfold base. apply in_or_app; right. apply in_or_app; right. apply in_or_app; right. apply in_or_app; right.
-      apply in_or_app; left. left. reflexivity.
-    + discriminate.
-  - apply existsb_exists in Hm as [[k m] [Hin Hmd]].
-    destruct (mapM_ok_inv _ _ _ _ Ems Hin) as [[k' jm] [Hy Hi]]. cbv beta iota in Hy.
-    destruct (enc_full F (dotted prefix n) m) as [jm'|] eqn:Em; [|discriminate]. cbn [bind] in Hy. inversion Hy; subst k' jm'.
-    rewrite Forall_forall in H. destruct (H _ Hin (dotted prefix n) jm Hmd Em) as [e He].
-    destruct (decode_obj_field_err ms' k jm e Hi He) as [e' He'].
-    eapply decode_obj_field_err; [|exact He']. apply Hfield.
-    + unfold base. apply in_or_app; right. apply in_or_app; right. apply in_or_app; right. apply in_or_app; right.
-      apply in_or_app; right. right. left. reflexivity.
-    + discriminate.
-Qed.
-
-(* witnesses for full mode *)
 Definition w_F (secs : list section) (fp : option json) : string -> finfo :=
   fun _ => mkFinfo fp (Some (JStr "w.py")) (Some (JStr "w.py")) secs [].
 Definition w_fulldoc : tree := TObj "w" None None (Some (mkDoc "Doc." (Some 1%Z) (Some 1%Z))) [] [] (XModule (FPStr "/x/w.py")).
-
-Lemma refuted_full_docstring :
-  (exists j, enc_full (w_F [mkSection "text" None (JStr "Doc.")] (Some (JStr "/x/w.py"))) "" w_fulldoc = Ok j /\ decode j = Err (EKey "name")) /\
-  (exists j, enc_full (w_F [] (Some (JStr "/x/w.py"))) "" w_fulldoc = Ok j /\ decode j = Err EType) /\
-  wf w_fulldoc = true.
-Proof.
-  split; [|split]; [eexists; split; [vm_compute; reflexivity|vm_compute; reflexivity]..|vm_compute; reflexivity].
-Qed.
 
 Lemma refuted_full_builtin :
   enc_full (w_F [] None) "" (w_module [] FPNone) = Err EBuiltin /\
@@ -1415,185 +1342,128 @@ Lemma refuted_full_builtin :
             /\ decode j = Ok (PTree (w_module [] (FPStr "/x/w.py"))).
 Proof. split; [vm_compute; reflexivity|]. eexists. split; vm_compute; reflexivity. Qed.
 
+
 (* ------------------------------------------------------------------------------------------------ *)
-(* 15. The decoding gaps are exact: a tree with one of them does not decode (no hypothesis on the tree) *)
+(* 15. Full mode: whatever the derived values, a full document decodes to the same tree as the minimal one *)
 
-Lemma mapM_dec_kv_lookup kvs : forall d k,
-  mapM dec_kv kvs = Ok d ->
-  match lookup k kvs with
-  | Some j => exists v, decode j = Ok v /\ lookup k d = Some v
-  | None => lookup k d = None
-  end.
+Definition sections_decode (secs : list section) : Prop := Forall (fun s => exists v, decode (enc_section s) = Ok v) secs.
+Definition opt_decodes (o : option json) : Prop := forall j, o = Some j -> exists v, decode j = Ok v.
+Definition finfo_ok (fi : finfo) : Prop :=
+  opt_decodes (f_filepath fi) /\ opt_decodes (f_relative fi) /\ opt_decodes (f_relative_package fi) /\
+  sections_decode (f_parsed fi) /\ (forall n secs, lookup n (f_param_parsed fi) = Some secs -> sections_decode secs).
+
+Lemma mapM_ok_exists {A B} (f : A -> res B) l : Forall (fun x => exists v, f x = Ok v) l -> exists l', mapM f l = Ok l'.
 Proof.
-  induction kvs as [|[k' j] r IH]; intros d k H.
-  - rewrite mapM_nil in H. inversion H. reflexivity.
-  - rewrite mapM_cons in H. cbn [dec_kv] in H. destruct (decode j) as [v|] eqn:Ej; [|discriminate]. cbn [bind] in H.
-    destruct (mapM dec_kv r) as [d'|] eqn:Er; [|discriminate]. cbn [bind] in H. inversion H; subst d.
-    cbn [lookup]. destruct (String.eqb k' k); [eauto|]. apply IH. reflexivity.
+  induction l as [|x r IH]; intro H; [exists []; reflexivity|]. inversion H as [|? ? [v Hv] Hr]; subst.
+  destruct (IH Hr) as [l' Hl']. exists (v :: l'). rewrite mapM_cons, Hv, Hl'. reflexivity.
 Qed.
 
-Lemma lookup_none_has_key {A} k (d : list (string * A)) : lookup k d = None -> has_key k d = false.
-Proof. unfold has_key. intros ->. reflexivity. Qed.
+Definition ddocF (secs' : list pv) (d : docstring) : pv :=
+  PDict [("value", PStr (d_value d)); ("lineno", pnum (d_lineno d)); ("endlineno", pnum (d_endlineno d)); ("parsed", PList secs')].
 
-Ltac bind_step := match goal with
-  | |- exists e, bind ?r _ = Err e => let E := fresh "E" in destruct r eqn:E; cbn [bind]; [|eauto]
-  end.
-
-Lemma load_class_no_lineno d : lookup "lineno" d = None -> exists e, load_class d = Err e.
-Proof. intro H. unfold load_class. bind_step. unfold getitem at 1. rewrite H. simpl. eauto. Qed.
-Lemma load_function_no_lineno d : lookup "lineno" d = None -> exists e, load_function d = Err e.
-Proof. intro H. unfold load_function. do 4 bind_step. unfold getitem at 1. rewrite H. simpl. eauto. Qed.
-Lemma load_attribute_no_lineno d : lookup "lineno" d = None -> exists e, load_attribute d = Err e.
-Proof. intro H. unfold load_attribute. bind_step. unfold getitem at 1. rewrite H. simpl. eauto. Qed.
-Lemma load_alias_no_lineno d : lookup "lineno" d = None -> exists e, load_alias d = Err e.
-Proof. intro H. unfold load_alias. do 2 bind_step. unfold getitem at 1. rewrite H. simpl. eauto. Qed.
-
-Lemma load_module_bad_filepath d v :
-  lookup "filepath" d = Some v -> (v = PNull \/ exists l, v = PList l) -> exists e, load_module d = Err e.
+Lemma dec_doc_full secs : sections_decode secs -> exists secs', forall d, decode (enc_doc_full secs d) = Ok (ddocF secs' d).
 Proof.
-  intros H Hv. unfold load_module. bind_step. unfold getitem at 1. rewrite H. cbn [of_option bind].
-  destruct Hv as [->|[l ->]]; simpl; eauto.
+  intro H. destruct (mapM_ok_exists decode (map enc_section secs)) as [secs' Hs].
+  { apply Forall_forall. intros j Hin. apply in_map_iff in Hin as [s [<- Hin]]. unfold sections_decode in H. rewrite Forall_forall in H. auto. }
+  exists secs'. intro d. unfold enc_doc_full, ddocF. rewrite decode_obj. rewrite !mapM_cons, mapM_nil. cbn [dec_kv].
+  rewrite decode_arr, Hs. destruct d as [v [l|] [e|]]; reflexivity.
 Qed.
 
-(* every loader, when it succeeds, returns a tree *)
-Ltac bind_inv H :=
-  repeat match type of H with
-         | bind ?r _ = Ok _ => let E := fresh "E" in destruct r eqn:E; cbn [bind] in H; [|discriminate H]
-         end.
+Lemma load_docstring_lookupF (D : list (string * pv)) secs' d :
+  lookup "docstring" D = Some (ddocF secs' d) -> load_docstring D = Ok (Some (reload_doc d)).
+Proof. intro H. unfold load_docstring. rewrite H. destruct d as [v [l|] [e|]]; reflexivity. Qed.
 
-Lemma decode_enc_min_is_tree t v : decode (enc_min t) = Ok v -> exists t', v = PTree t'.
+(* parameters, with any docstring encoding that decodes to a dict the docstring loader accepts *)
+Lemma dec_param_gen (jd : docstring -> json) (pd : docstring -> pv) n a k df doc :
+  (forall d, decode (jd d) = Ok (pd d)) ->
+  (forall (D : list (string * pv)) d, lookup "docstring" D = Some (pd d) -> load_docstring D = Ok (Some (reload_doc d))) ->
+  wf_param (mkParam n a k df doc) = true ->
+  decode (JObj ([("name", JStr n); ("annotation", enc_ev a); ("kind", enc_optstr k); ("default", enc_ev df)]
+                ++ match doc with Some d => [("docstring", jd d)] | None => [] end))
+  = Ok (PParam (reload_param (mkParam n a k df doc))).
 Proof.
-  intro H. destruct t as [n ln eln doc ls ms x|n tp ln eln]; cbn [enc_min] in H; rewrite decode_obj in H.
-  - destruct (mapM dec_kv _) as [d|] eqn:Ed in H; [|discriminate]. cbn [bind] in H.
-    pose proof (mapM_dec_kv_lookup _ d "cls" Ed) as Hc. pose proof (mapM_dec_kv_lookup _ d "kind" Ed) as Hk.
-    assert (Hcls : lookup "cls" d = None).
-    { revert Hc. destruct ln, eln, doc, x; unfold enc_extra, enc_ev_field;
-        repeat match goal with |- context [is_vnone ?v] => destruct (is_vnone v) end; cbn; auto. }
-    assert (Hkind : lookup "kind" d = Some (PStr (kind_of x))).
-    { cbn in Hk. destruct Hk as [v' [Hv' Hl]]. inversion Hv'; subst. exact Hl. }
-    unfold hook in H. rewrite (lookup_none_has_key _ _ Hcls), Hkind in H.
-    destruct x; cbn [kind_of] in H;
-      repeat match type of H with context [String.eqb ?a ?b] => change (String.eqb a b) with true in H || change (String.eqb a b) with false in H end;
-      cbn iota in H.
-    + unfold load_module in H. bind_inv H. inversion H. eauto.
-    + unfold load_class in H. bind_inv H. inversion H. eauto.
-    + unfold load_function in H. bind_inv H. inversion H. eauto.
-    + unfold load_attribute in H. bind_inv H. inversion H. eauto.
-  - destruct (mapM dec_kv _) as [d|] eqn:Ed in H; [|discriminate]. cbn [bind] in H.
-    pose proof (mapM_dec_kv_lookup _ d "cls" Ed) as Hc. pose proof (mapM_dec_kv_lookup _ d "kind" Ed) as Hk.
-    assert (Hcls : lookup "cls" d = None).
-    { revert Hc. unfold truthy_field. destruct ln as [z|]; [destruct (Z.eqb z 0)|]; (destruct eln as [z'|]; [destruct (Z.eqb z' 0)|]); cbn; auto. }
-    assert (Hkind : lookup "kind" d = Some (PStr kind_alias)).
-    { cbn in Hk. destruct Hk as [v' [Hv' Hl]]. inversion Hv'; subst. exact Hl. }
-    unfold hook in H. rewrite (lookup_none_has_key _ _ Hcls), Hkind in H.
-    change (String.eqb kind_alias kind_module) with false in H. change (String.eqb kind_alias kind_class) with false in H.
-    change (String.eqb kind_alias kind_function) with false in H. change (String.eqb kind_alias kind_attribute) with false in H.
-    change (String.eqb kind_alias kind_alias) with true in H. cbn iota in H.
-    unfold load_alias in H. bind_inv H. inversion H. eauto.
+  intros Hjd Hld. unfold wf_param. cbn [p_annotation p_default p_kind].
+  intro H. apply andb_true_iff in H as [H Hk]. apply andb_true_iff in H as [Ha Hd].
+  destruct k as [k|]; [|discriminate].
+  destruct (pk_not_kind _ Hk) as (K1 & K2 & K3 & K4 & K5).
+  rewrite decode_obj.
+  assert (Hm : mapM dec_kv ([("name", JStr n); ("annotation", enc_ev a); ("kind", enc_optstr (Some k)); ("default", enc_ev df)]
+                            ++ match doc with Some d => [("docstring", jd d)] | None => [] end)
+               = Ok ([("name", PStr n); ("annotation", of_ev (reload_ev a)); ("kind", PStr k); ("default", of_ev (reload_ev df))]
+                     ++ match doc with Some d => [("docstring", pd d)] | None => [] end)).
+  { rewrite mapM_app. rewrite !mapM_cons, mapM_nil. cbn [dec_kv].
+    rewrite (slot_roundtrip _ Ha), (slot_roundtrip _ Hd). simpl decode. simpl bind.
+    destruct doc as [d|]; [|reflexivity]. rewrite mapM_cons, mapM_nil. cbn [dec_kv]. rewrite Hjd. reflexivity. }
+  rewrite Hm. simpl bind.
+  unfold hook, reload_param. cbn [p_name p_annotation p_default p_kind p_doc].
+  destruct doc as [d|].
+  - cbn [app has_key lookup String.eqb Ascii.eqb Bool.eqb]. rewrite K1, K2, K3, K4, K5.
+    unfold load_parameter. cbn [getitem lookup of_option String.eqb Ascii.eqb Bool.eqb bind]. rewrite Hk.
+    cbn [bind]. rewrite (Hld _ d) by reflexivity. cbn [bind as_string]. rewrite !ev_res_of_reload. reflexivity.
+  - cbn [app has_key lookup String.eqb Ascii.eqb Bool.eqb]. rewrite K1, K2, K3, K4, K5.
+    unfold load_parameter. cbn [getitem lookup of_option String.eqb Ascii.eqb Bool.eqb bind]. rewrite Hk.
+    cbn [bind]. unfold load_docstring. cbn [lookup String.eqb Ascii.eqb Bool.eqb bind as_string].
+    rewrite !ev_res_of_reload. reflexivity.
 Qed.
 
-(* a members dict with a key "cls" or "kind" is not returned as a dict *)
-Lemma members_dict_fails ms :
-  (mem_str "cls" (keys_of ms) || mem_str "kind" (keys_of ms))%bool = true ->
-  exists e, decode (JObj (map (fun km : string * tree => let (k, m) := km in (k, enc_min m)) ms)) = Err e.
+Lemma dec_param_full fi p : finfo_ok fi -> wf_param p = true -> decode (enc_param_full fi p) = Ok (PParam (reload_param p)).
 Proof.
-  intro Hk. rewrite decode_obj.
-  destruct (mapM dec_kv _) as [d|] eqn:Ed; [|simpl; eauto]. cbn [bind].
-  assert (Hval : forall k, mem_str k (keys_of ms) = true -> exists t', lookup k d = Some (PTree t')).
-  { intros k Hm. pose proof (mapM_dec_kv_lookup _ d k Ed) as Hl.
-    assert (Hex : exists m, lookup k (map (fun km : string * tree => let (k0, m) := km in (k0, enc_min m)) ms) = Some (enc_min m)).
-    { clear -Hm. induction ms as [|[k' m] r IH]; [discriminate|]. cbn [map lookup]. unfold keys_of, mem_str in Hm. cbn [map existsb fst] in Hm.
-      rewrite (String.eqb_sym k k') in Hm. destruct (String.eqb k' k); [eauto|]. apply IH. exact Hm. }
-    destruct Hex as [m Hm']. rewrite Hm' in Hl. destruct Hl as [v [Hv Hl]].
-    destruct (decode_enc_min_is_tree _ _ Hv) as [t' ->]. eauto. }
-  unfold hook. destruct (mem_str "cls" (keys_of ms)) eqn:Hc.
-  - destruct (Hval _ Hc) as [t' Ht]. unfold has_key. rewrite Ht. unfold load_expression. rewrite Ht. eauto.
-  - cbn [orb] in Hk. destruct (Hval _ Hk) as [t' Ht].
-    destruct (has_key "cls" d) eqn:Hh.
-    + unfold load_expression. unfold has_key in Hh. destruct (lookup "cls" d) as [v|] eqn:Hv; [|discriminate].
-      pose proof (mapM_dec_kv_lookup _ d "cls" Ed) as Hl.
-      destruct (lookup "cls" (map (fun km : string * tree => let (k0, m) := km in (k0, enc_min m)) ms)) as [j|] eqn:Hj.
-      * exfalso. assert (mem_str "cls" (keys_of ms) = true); [|congruence].
-        clear -Hj. induction ms as [|[k' m] r IH]; [discriminate|]. cbn [map lookup] in Hj. unfold keys_of, mem_str. cbn [map existsb fst].
-        rewrite (String.eqb_sym "cls" k'). destruct (String.eqb k' "cls"); [reflexivity|]. apply IH. exact Hj.
-      * congruence.
-    + rewrite Ht. unfold load_parameter. do 2 bind_step. unfold getitem at 1. rewrite Ht. cbn [of_option bind]. eauto.
+  intros (_ & _ & _ & _ & Hp) Hwf. destruct p as [n a k df doc]. unfold enc_param_full. cbn [p_name p_annotation p_kind p_default p_doc].
+  set (secs := match lookup n (f_param_parsed fi) with Some s => s | None => [] end).
+  assert (Hs : sections_decode secs).
+  { unfold secs. destruct (lookup n (f_param_parsed fi)) eqn:E; [eapply Hp; exact E|constructor]. }
+  destruct (dec_doc_full secs Hs) as [secs' Hd].
+  apply (dec_param_gen (enc_doc_full secs) (ddocF secs')); [exact Hd| |exact Hwf].
+  intros D d. apply load_docstring_lookupF.
 Qed.
 
-Lemma in_enc_fields_members n ln eln doc ls ms x :
-  lookup "members" ([("kind", JStr (kind_of x)); ("name", JStr n)] ++ opt_field "lineno" ln ++ opt_field "endlineno" eln ++ enc_docfield doc
-                    ++ [("labels", JArr (map JStr ls));
-                        ("members", JObj (map (fun km : string * tree => let (k, m) := km in (k, enc_min m)) ms))] ++ enc_extra x)
-  = Some (JObj (map (fun km : string * tree => let (k, m) := km in (k, enc_min m)) ms)).
-Proof. destruct ln, eln, doc; reflexivity. Qed.
-
-Theorem gap_decode_fails : forall t,
-  (gap_lineno t || gap_filepath t || gap_memberkey t)%bool = true -> exists e, decode (enc_min t) = Err e.
+Lemma dec_extra_full fi x : finfo_ok fi -> wf_extra x = true -> mapM dec_kv (enc_extra_full fi x) = Ok (dextra x).
 Proof.
-  induction t using tree_ind'; intro Hg.
-  - (* alias: only the line-number gap applies *)
-    cbn [gap_lineno gap_filepath gap_memberkey orb] in Hg. rewrite !orb_false_r in Hg.
-    cbn [enc_min]. rewrite decode_obj.
-    destruct (mapM dec_kv _) as [d|] eqn:Ed; [|simpl; eauto]. cbn [bind].
-    pose proof (mapM_dec_kv_lookup _ d "cls" Ed) as Hc. pose proof (mapM_dec_kv_lookup _ d "kind" Ed) as Hk.
-    pose proof (mapM_dec_kv_lookup _ d "lineno" Ed) as Hl.
-    assert (Hcls : lookup "cls" d = None).
-    { revert Hc. unfold truthy_field. destruct ln as [z|]; [destruct (Z.eqb z 0)|]; (destruct eln as [z'|]; [destruct (Z.eqb z' 0)|]); cbn; auto. }
-    assert (Hkind : lookup "kind" d = Some (PStr kind_alias)).
-    { cbn in Hk. destruct Hk as [v' [Hv' Hl']]. inversion Hv'; subst. exact Hl'. }
-    assert (Hline : lookup "lineno" d = None).
-    { revert Hl. unfold truthy_field. destruct ln as [z|]; [destruct (Z.eqb z 0); [|discriminate]|];
-        (destruct eln as [z'|]; [destruct (Z.eqb z' 0)|]); cbn; auto. }
-    unfold hook. rewrite (lookup_none_has_key _ _ Hcls), Hkind.
-    change (String.eqb kind_alias kind_module) with false. change (String.eqb kind_alias kind_class) with false.
-    change (String.eqb kind_alias kind_function) with false. change (String.eqb kind_alias kind_attribute) with false.
-    change (String.eqb kind_alias kind_alias) with true. cbn iota. apply load_alias_no_lineno. assumption.
-  - (* object *)
-    cbn [enc_min]. rewrite decode_obj.
-    destruct (mapM dec_kv _) as [d|] eqn:Ed; [|simpl; eauto]. cbn [bind].
-    pose proof (mapM_dec_kv_lookup _ d "members" Ed) as Hmem. rewrite in_enc_fields_members in Hmem.
-    destruct Hmem as [vm [Hvm _]].
-    (* a gap below: the members dict would not have decoded *)
-    assert (Hsub : forall km, In km ms -> (gap_lineno (snd km) || gap_filepath (snd km) || gap_memberkey (snd km))%bool = true -> False).
-    { intros [k m] Hin Hgm. rewrite Forall_forall in H. destruct (H _ Hin Hgm) as [e He]. cbn [snd] in He.
-      assert (Hin' : In (k, enc_min m) (map (fun km : string * tree => let (k, m) := km in (k, enc_min m)) ms)).
-      { apply in_map_iff. exists (k, m). auto. }
-      destruct (decode_obj_field_err _ _ _ _ Hin' He) as [e' He']. congruence. }
-    assert (Hkeys : (mem_str "cls" (keys_of ms) || mem_str "kind" (keys_of ms))%bool = false).
-    { destruct (mem_str "cls" (keys_of ms) || mem_str "kind" (keys_of ms))%bool eqn:Hk; [|reflexivity].
-      destruct (members_dict_fails ms Hk) as [e He]. congruence. }
-    assert (Hnone : forall f, (forall km, In km ms -> f (snd km) = true -> (gap_lineno (snd km) || gap_filepath (snd km) || gap_memberkey (snd km))%bool = true) ->
-                    existsb (fun km : string * tree => let (_, m) := km in f m) ms = false).
-    { intros f Hf. destruct (existsb _ ms) eqn:He; [|reflexivity]. apply existsb_exists in He as [[k m] [Hin Hfm]].
-      exfalso. apply (Hsub (k, m) Hin). apply (Hf (k, m) Hin). exact Hfm. }
-    cbn [gap_lineno gap_filepath gap_memberkey] in Hg.
-    rewrite (Hnone gap_lineno) in Hg by (intros km _ ->; reflexivity).
-    rewrite (Hnone gap_filepath) in Hg by (intros km _ ->; apply orb_true_iff; left; apply orb_true_r).
-    rewrite (Hnone gap_memberkey) in Hg by (intros km _ ->; apply orb_true_r).
-    rewrite Hkeys in Hg. rewrite !orb_false_r in Hg.
-    (* the gap is at this node *)
-    pose proof (mapM_dec_kv_lookup _ d "cls" Ed) as Hc. pose proof (mapM_dec_kv_lookup _ d "kind" Ed) as Hk.
-    pose proof (mapM_dec_kv_lookup _ d "lineno" Ed) as Hl. pose proof (mapM_dec_kv_lookup _ d "filepath" Ed) as Hf.
-    assert (Hcls : lookup "cls" d = None).
-    { revert Hc. destruct ln, eln, doc, x; unfold enc_extra, enc_ev_field;
-        repeat match goal with |- context [is_vnone ?v] => destruct (is_vnone v) end; cbn; auto. }
-    assert (Hkind : lookup "kind" d = Some (PStr (kind_of x))).
-    { cbn in Hk. destruct Hk as [v' [Hv' Hl']]. inversion Hv'; subst. exact Hl'. }
-    unfold hook. rewrite (lookup_none_has_key _ _ Hcls), Hkind.
-    destruct x as [fp|bases decos|decos params ret|v a]; cbn [kind_of is_module negb andb orb] in *;
-      repeat match goal with |- context [String.eqb ?a ?b] => change (String.eqb a b) with true || change (String.eqb a b) with false end;
-      cbn iota.
-    + (* module: file path *)
-      assert (Hfp : exists v, lookup "filepath" d = Some v /\ (v = PNull \/ exists l, v = PList l)).
-      { revert Hf. destruct ln, eln, doc; cbn; intros [v [Hv Hl']]; exists v; (split; [exact Hl'|]);
-          (destruct fp as [|s|l]; [inversion Hv; auto|discriminate Hg|
-             right; cbn [enc_fpath] in Hv; rewrite dec_labels in Hv; inversion Hv; eauto]). }
-      destruct Hfp as [v [Hv Hb]]. eapply load_module_bad_filepath; eassumption.
-    + destruct ln as [z|]; [discriminate Hg|].
-      apply load_class_no_lineno. revert Hl. destruct eln, doc; cbn; auto.
-    + destruct ln as [z|]; [discriminate Hg|].
-      apply load_function_no_lineno. revert Hl. destruct eln, doc; cbn; auto.
-    + destruct ln as [z|]; [discriminate Hg|].
-      apply load_attribute_no_lineno. revert Hl. destruct eln, doc; unfold enc_extra, enc_ev_field;
-        repeat match goal with |- context [is_vnone ?v] => destruct (is_vnone v) end; cbn; auto.
+  intros Hfi Hx. destruct x as [fp|bases decos|decos params ret|v a]; try (apply dec_extra; assumption).
+  simpl wf_extra in Hx. apply andb_true_iff in Hx as [H Hr]. apply andb_true_iff in H as [Hd Hp]. cbn [enc_extra_full dextra].
+  rewrite !mapM_cons, mapM_nil. cbn [dec_kv].
+  rewrite (dec_deco_list _ Hd), (slot_roundtrip _ Hr).
+  rewrite decode_arr, mapM_map. rewrite forallb_forall in Hp.
+  rewrite (mapM_ok_in _ (fun p => PParam (reload_param p))); [reflexivity|]. intros p Hin. apply dec_param_full; auto.
+Qed.
+
+(* the dict of a full-mode object *)
+Definition p_docfF (secs' : list pv) (doc : option docstring) : list (string * pv) :=
+  match doc with Some d => [("docstring", ddocF secs' d)] | None => [] end.
+Definition dobjF n (path : string) (vfp vrel vrelp : pv) (secs' : list pv) ln eln doc (ls : list string) ms x : list (string * pv) :=
+  [("kind", PStr (kind_of x)); ("name", PStr n)]
+  ++ [("path", PStr path); ("filepath", match x with XModule fp => dfpath fp | _ => vfp end);
+      ("relative_filepath", vrel); ("relative_package_filepath", vrelp)]
+  ++ p_opt "lineno" ln ++ p_opt "endlineno" eln ++ p_docfF secs' doc
+  ++ [("labels", PList (map PStr ls)); ("members", PDict (dmembers ms))]
+  ++ match x with XModule _ => [] | _ => dextra x end.
+
+Ltac objF_cases ln eln doc x :=
+  unfold dobjF; destruct ln, eln, doc, x; unfold dextra, pev;
+  repeat match goal with |- context [is_vnone ?v] => destruct (is_vnone v) end;
+  reflexivity.
+
+Lemma hook_objF n path vfp vrel vrelp secs' ln eln doc ls ms x :
+  node_facts n ln eln doc ls ms x ->
+  hook (dobjF n path vfp vrel vrelp secs' ln eln doc ls ms x) = Ok (PTree (reload (TObj n ln eln doc ls ms x))).
+Proof.
+  intro NF. apply hook_generic; try assumption.
+  - objF_cases ln eln doc x.
+  - reflexivity.
+  - reflexivity.
+  - objF_cases ln eln doc x.
+  - objF_cases ln eln doc x.
+  - destruct doc as [d|].
+    + apply (load_docstring_lookupF _ secs'). unfold dobjF; destruct ln, eln, x; unfold dextra, pev;
+        repeat match goal with |- context [is_vnone ?v] => destruct (is_vnone v) end; reflexivity.
+    + unfold load_docstring.
+      assert (H : lookup "docstring" (dobjF n path vfp vrel vrelp secs' ln eln None ls ms x) = None).
+      { unfold dobjF; destruct ln, eln, x; unfold dextra, pev;
+          repeat match goal with |- context [is_vnone ?v] => destruct (is_vnone v) end; reflexivity. }
+      rewrite H. reflexivity.
+  - objF_cases ln eln doc x.
+  - objF_cases ln eln doc x.
+  - intros _. objF_cases ln eln doc x.
+  - intros k Hk. unfold slot_key in Hk. apply mem_str_in in Hk. simpl in Hk.
+    repeat (destruct Hk as [Hk|Hk]; [subst k; objF_cases ln eln doc x|]). contradiction.
 Qed.
